@@ -39,6 +39,9 @@ func c12Positions() []pposition {
 		{"poryswitch(W) {\n1: n%d\n_: msgbox(\"never%d\")\n}", "n%d", false},
 		{"a%d\nporyswitch(W) {\n2 { msgbox(\"never%d\") }\n_ { msgbox(\"t%d\") k%d }\n}", "a%d\nmsgbox(\"t%d\")\nk%d", true},
 		{"switch (var(V%d)) {\ncase 1:\nc%d\n}", "switch (var(V%d)) {\ncase 1:\nc%d\n}", false},
+		// the same literal in several cases, formatted under parameters that give different results
+		{"msgbox(format(\"aaa bbb ccc ddd eee\", \"TEST\", 70))", "msgbox(format(\"aaa bbb ccc ddd eee\", \"TEST\", 70))", false},
+		{"msgbox(format(\"aaa bbb ccc ddd eee\", \"TEST\", 70, cursorOverlapWidth=10))", "msgbox(format(\"aaa bbb ccc ddd eee\", \"TEST\", 70, cursorOverlapWidth=10))", false},
 	}
 	textContents := []pcontent{
 		{"\"x%d\"", "\"x%d\"", false},
@@ -46,6 +49,9 @@ func c12Positions() []pposition {
 		{"format(\"z%d z z z z z z z z z z z z z\", \"TEST\", 40)", "format(\"z%d z z z z z z z z z z z z z\", \"TEST\", 40)", false},
 		{"custom\"a%d\"\n\"b\"", "custom\"a%d\"\n\"b\"", false},
 		{"\"x%d$\"", "\"x%d$\"", false},
+		{"format(\"aaa bbb ccc ddd eee\", \"TEST\", 70)", "format(\"aaa bbb ccc ddd eee\", \"TEST\", 70)", false},
+		{"format(\"aaa bbb ccc ddd eee\", \"TEST\", 70, cursorOverlapWidth=10)", "format(\"aaa bbb ccc ddd eee\", \"TEST\", 70, cursorOverlapWidth=10)", false},
+		{"format(\"aaa bbb ccc ddd eee\", \"TEST\", 70, numLines=1)", "format(\"aaa bbb ccc ddd eee\", \"TEST\", 70, numLines=1)", false},
 	}
 	moveContents := []pcontent{
 		{"s%d", "s%d", false},
@@ -251,5 +257,5 @@ func runC12(tier string) int {
 		"the selected program must itself be well-formed; case contents never contain 'continue'",
 		"line markers off; all switch keys defined; the file also defines constants named like case labels and switch values")
 	return r.Finish(r.Get("evaluations"), r.Get("nontrivial"),
-		"every poryswitch with 1-3 distinct case labels from {A, B, 1, _} in every order x colon/brace form per case x every content assignment (9-11 statement contents incl. inline texts, typed texts, labels, control flow, nested poryswitches; 5 text contents incl. typed, formatted and multi-part; 7 movement and 6 mart contents incl. nested poryswitches, multipliers, terminators) in 8 positions (statement, in if, in loop, in inline map script, text, movement, moves(), mart) x -s value in {A, B, 1, non-matching}; output compared byte for byte with the program in which the selected case is written out; non-trivial = >= 2 cases")
+		"every poryswitch with 1-3 distinct case labels from {A, B, 1, _} in every order x colon/brace form per case x every content assignment (11-13 statement contents incl. one literal formatted under different parameters in different cases, inline texts, typed texts, labels, control flow, nested poryswitches; 8 text contents incl. typed, formatted (also one literal under three parameter sets) and multi-part; 7 movement and 6 mart contents incl. nested poryswitches, multipliers, terminators) in 8 positions (statement, in if, in loop, in inline map script, text, movement, moves(), mart) x -s value in {A, B, 1, non-matching}; output compared byte for byte with the program in which the selected case is written out; non-trivial = >= 2 cases")
 }
